@@ -757,6 +757,14 @@ def run(ctx, report):
     else:
         R4.violation('_dis:bytes', '_dis:bytes', 'raw bytes are no longer the prefix of the input that was consumed', where(arch, dis))
 
+    dis_rewind_rule(ctx, R4, arch, dis)
+    # -------------------------------------------------------------- D5 AT&T mnemonic reader is total
+    R5 = report.rule('C10.D5', 'mnemo_from_att, evaluated on every mnemonic-like name x operand shape, returns or raises the documented ValueError', floor=3000)
+    from_att_total(ctx, R5, arch)
+
+
+def dis_rewind_rule(ctx, R4, arch, dis):
+    """shared with C12.D14: a rejected decode leaves the caller's stream where it was, so that repeating the call gives the same answer"""
     # a decode that reports "no instruction" leaves the caller's stream where it was: either every failing exit of _dis rewinds,
     # or the entry point restores the offset it saved before calling _dis
     entry = arch.method('x86_mnemo_metaclass', 'dis')
@@ -809,9 +817,6 @@ def run(ctx, report):
     else:
         R4.violation('dis:failure-rewinds', 'dis:failure-leaves-offset', 'when _dis finds no instruction (%d failing exits) the bytes it consumed stay consumed: the same dis() call on the same '
                      'stream then decodes from the middle of the rejected bytes' % len(fails), where(arch, entry), witness='s = bin_stream(b"\\x0f\\x0b\\x90"...): dis(s) is None twice is not guaranteed')
-    # -------------------------------------------------------------- D5 AT&T mnemonic reader is total
-    R5 = report.rule('C10.D5', 'mnemo_from_att, evaluated on every mnemonic-like name x operand shape, returns or raises the documented ValueError', floor=3000)
-    from_att_total(ctx, R5, arch)
 
 
 def frame_locals_rule(ctx, R):
